@@ -330,11 +330,60 @@ def nullable(n):
     raise ValueError(n)
 
 def nested_nullable_closure(ast):
-    """an unbounded quantifier (* + {n,}) over a body that can match the empty string and itself contains an unbounded quantifier"""
+    """an unbounded quantifier (* + {n,}) over a body that can match the empty string and itself contains a quantifier that Xerces
+    compiles to closure/question operations (* + {n,} {n,m} with n<m; not '?', not {n})"""
     for n in walk(ast):
         if n[0] == 'rep' and n[3] is None and nullable(n[1]):
-            if any(m[0] == 'rep' and m[3] is None for m in walk(n[1])): return True
+            if any(m[0] == 'rep' and m[4] != '?' and not (m[3] is not None and m[3] == m[2]) for m in walk(n[1])): return True
     return False
+
+def _item_intervals(it):
+    if it[0] == 'c': return [(ord(it[1]), ord(it[1]))]
+    if it[0] == 'r': return [(ord(it[1]), ord(it[2]))]
+    if it[0] == 'esc' and it[1] == 's': return [(9, 10), (13, 13), (32, 32)]
+    if it[0] == 'prop' and it[1].startswith('Is'):
+        lo, hi = BLOCKS[it[1]]
+        return [(0, lo - 1), (hi + 1, 0x10FFFF)] if it[2] else [(lo, hi)]
+    return None      # category / other multi-character escapes: exact ranges are not part of the model
+
+def _coalesce(ivs):
+    out = []
+    for a, b in sorted(ivs):
+        if out and a <= out[-1][1] + 1: out[-1] = (out[-1][0], max(out[-1][1], b))
+        else: out.append((a, b))
+    return out
+
+def addrange_drop_risk(ast):
+    """a character class in which a range item lo-hi follows items that already cover lo but not hi, with a smaller start
+    (finding C11-addrange-tail-overlap: RangeToken::addRange drops such a range)"""
+    def cls_risk(c):
+        known = []; unknown = False
+        for it in c[2]:
+            if it[0] == 'r' and it[1] != it[2]:
+                lo, hi = ord(it[1]), ord(it[2])
+                if unknown and lo >= 0xF900: return True
+                for S, E in known + _coalesce(known):
+                    if S < lo <= E < hi: return True
+            iv = _item_intervals(it)
+            if iv is None: unknown = True
+            else: known += iv
+        return c[3] is not None and cls_risk(c[3])
+    return any(n[0] == 'cls' and cls_risk(n) for n in walk(ast))
+
+def surrogate_overlap_risk(ast):
+    """a supplementary-plane literal outside a class together with a variable quantifier over a single atom: Xerces decides whether the
+    quantified atom can overlap what follows by comparing a UTF-16 unit with a code point (finding C11-overlap-surrogate)"""
+    supp = any(n[0] == 'lit' and ord(n[1]) > 0xFFFF for n in walk(ast))
+    return supp and any(n[0] == 'rep' and n[1][0] in ATOMS and n[4] != '?' and not (n[3] is not None and n[3] == n[2]) for n in walk(ast))
+
+def starts_with_dot_closure(ast):
+    n = ast
+    while n[0] in ('seq', 'grp'):
+        n = n[1][0] if n[0] == 'seq' else n[1]
+    return n[0] == 'rep' and n[1][0] == 'dot'
+
+def has_class_subtraction(ast):
+    return any(n[0] == 'cls' and n[3] is not None for n in walk(ast))
 
 def first_success_quantifier(ast):
     """pattern contains a quantifier that Xerces compiles to closure/question operations (everything except '?' and {n})"""
